@@ -970,7 +970,9 @@ def c14_eval(ctx):
                         break
                 elif w[0] == "dfdrive":
                     if f.get("why") == "cap" and f.get("viol", "0") == "0":
-                        pass    # 400000 calls were not enough for this schedule (1-byte buffers, 70000 bytes): inconclusive
+                        # 400000 calls were not enough for this schedule (1-byte buffers, 70000 bytes): inconclusive,
+                        # and the stream has NOT ended - the calls that follow cannot be judged as "after stream end"
+                        break
                     elif f.get("st") != "1" or f.get("viol", "0") != "0":
                         bad = "driver loop repeating Finish did not terminate with stream end: %s" % str({x: f.get(x) for x in ("st", "why", "calls", "viol")})
                         break
